@@ -241,3 +241,43 @@ IDENTITY = ["formulae.terms.call.Call.__eq__", "formulae.terms.call.Call.__hash_
 FUNCTIONS += IDENTITY
 ASSUMPTIONS += ["== and hash() of the opaque values held in Call.call / Variable.reference are uninterpreted (LazyCall.__eq__ is proved "
                 "separately in call_resolver_c; hash consistency of LazyCall/LazyOperator is exercised by the bounded tier only)"]
+
+
+# ---- numeric variables and the dispatch of Variable.eval_new_data (C06): values are taken row by row, nothing is estimated ----
+REG.series_numeric_asarray = True
+
+
+def numval(x, r):
+    """the number in row r of a numeric column (specification helper; executable)"""
+    return float(x.iloc[r])
+
+
+def _numval(I, a, kw, node):
+    from vf.pyvc.ops import int_term
+    from vf.pyvc.values import SReal
+    return SReal(pandas_m.series_num(a[0].t, int_term(a[1])))
+
+
+def column(d, name):
+    return d[name]
+
+
+def _column(I, a, kw, node):
+    return a[0].getitem(I, a[1], node)
+
+
+REG.externals[f"{__name__}.numval"] = _numval
+REG.externals[f"{__name__}.column"] = _column
+REG.contract(V + ".eval_new_data_numeric", params={"x": "series"}, returns="arr1", tags=["C06"],
+             ensures=["result.shape[0] == nrows(x)", "forall(0, nrows(x), lambda r: result[r] == numval(x, r))"])
+REG.contract(V + ".eval_new_data", params={"data_mask": "frame"}, returns="arr", tags=["C06", "C10"],
+             requires=["self.kind in ('numeric', 'categoric')", f"{M}.shape[0] == len(self.levels)"],
+             raises={"ValueError": "self.kind != 'numeric' and (" + UNSEEN.replace("(x", "(column(data_mask, self.name)") + ") and mode() == 'error'"},
+             ensures=[  # a numeric variable: the column, row by row; a categorical one: the remembered contrast rows (zero rows for unseen levels)
+                 "implies(self.kind == 'numeric', result.ndim == 1 and result.shape[0] == nrows(column(data_mask, self.name)) and "
+                 "forall(0, result.shape[0], lambda r: result[r] == numval(column(data_mask, self.name), r)))",
+                 f"implies(self.kind != 'numeric', result.shape[0] == nrows(column(data_mask, self.name)) and result.shape[1] == {M}.shape[1] and "
+                 f"forall(0, result.shape[0], lambda r: forall(0, {M}.shape[1], lambda j: result[r, j] == "
+                 f"(0 if codes(column(data_mask, self.name), self.levels)[r] == -1 else {M}[codes(column(data_mask, self.name), self.levels)[r], j]))))"])
+FUNCTIONS += [V + ".eval_new_data_numeric", V + ".eval_new_data"]
+ASSUMPTIONS += ["frame[name] is the column of that name with one row per row of the frame; np.asarray(series) lists its row values in order"]
